@@ -28,10 +28,28 @@ pub fn rand_fq_nonzero<R: Rng>(rng: &mut R) -> Fq {
         }
     }
 }
+/// a primitive cube root of unity modulo r: g^((r-1)/3) for the first small g that does not give 1
+pub fn cube_root_mod_r() -> Fr {
+    let e = Fr::from_slice(&hex!("3cc0000000e137a5f201391aa72f97c16dfb866e5da383fa4c7a4b34478a450c")).unwrap();
+    let mut g = Fr::one() + Fr::one();
+    loop {
+        let l = g.pow(e);
+        if l != Fr::one() {
+            return l;
+        }
+        g = g + Fr::one();
+    }
+}
 /// scalars of interest: 0, 1, 2, r-1, r-2, (r+-1)/2, powers of two, 2^i - 1, sparse / dense patterns, Montgomery-boundary pool, random
 pub fn pick_scalar<R: Rng>(rng: &mut R, pool: &Pool) -> Fr {
     let two = Fr::one() + Fr::one();
-    match rng.gen_range(0..16) {
+    match rng.gen_range(0..17) {
+        16 => {
+            // the eigenvalues of the order-3 endomorphism (x, y) -> (w x, y): l, l^2 = -1 - l, their negatives, 1 - l:
+            // l*P shares its y with P, -l*P has the opposite y, and neither is P or -P
+            let l = cube_root_mod_r();
+            match rng.gen_range(0..6) { 0 => l, 1 => l * l, 2 => -l, 3 => -(l * l), 4 => Fr::one() - l, _ => l - Fr::one() }
+        }
         0 => Fr::zero(),
         1 => Fr::one(),
         2 => two,
